@@ -53,26 +53,26 @@ type LoopContract struct {
 }
 
 type FuncContract struct {
-	Name     string
-	Props    []string
-	Requires []*Clause
-	Ensures  []*Clause
-	Ghosts   []GhostDecl
-	Loops    []*LoopContract
-	Hooks    []*Hook
-	Mode     string // sequential | concurrent
-	Trusted  bool   // stub: body not verified
-	Pure     bool   // result is an uninterpreted function of the arguments (and named heap reads)
-	Inline   bool
+	Name         string
+	Props        []string
+	Requires     []*Clause
+	Ensures      []*Clause
+	Ghosts       []GhostDecl
+	Loops        []*LoopContract
+	Hooks        []*Hook
+	Mode         string // sequential | concurrent
+	Trusted      bool   // stub: body not verified
+	Pure         bool   // result is an uninterpreted function of the arguments (and named heap reads)
+	Inline       bool
 	NoPanicProps []string // properties for which no-panic obligations of this function count
-	Blocks   string   // effect: never | ctx | parent | unbounded
-	Modifies []string // explicit additions to the write set (stubs)
-	Reads    []string
-	File     string
-	Line     int
-	Entry    bool // verified with concurrent callers in mind
-	Opts     map[string]string
-	Uses     []string // lemmas assumed at entry (each is proved separately)
+	Blocks       string   // effect: never | ctx | parent | unbounded
+	Modifies     []string // explicit additions to the write set (stubs)
+	Reads        []string
+	File         string
+	Line         int
+	Entry        bool // verified with concurrent callers in mind
+	Opts         map[string]string
+	Uses         []string // lemmas assumed at entry (each is proved separately)
 }
 
 type Monitor struct {
@@ -117,19 +117,20 @@ type ChanProto struct {
 
 // Contracts holds everything parsed from the contract and stub files.
 type Contracts struct {
-	Funcs    map[string]*FuncContract
-	Monitors map[string]*Monitor
-	Fields   map[string]*FieldMode
-	SpecFuns []*SpecFun
-	Lemmas   []*Lemma
-	Order    []string
-	Files    []string
-	Assumptions []string // mechanical scan: trusted / axiom / assume lines
-	FunTypes map[string]string // named func type -> spec function giving its (pure) result
+	Funcs       map[string]*FuncContract
+	Monitors    map[string]*Monitor
+	Fields      map[string]*FieldMode
+	FieldModes  map[string][]*FieldMode
+	SpecFuns    []*SpecFun
+	Lemmas      []*Lemma
+	Order       []string
+	Files       []string
+	Assumptions []string          // mechanical scan: trusted / axiom / assume lines
+	FunTypes    map[string]string // named func type -> spec function giving its (pure) result
 }
 
 func NewContracts() *Contracts {
-	return &Contracts{Funcs: map[string]*FuncContract{}, Monitors: map[string]*Monitor{}, Fields: map[string]*FieldMode{}, FunTypes: map[string]string{}}
+	return &Contracts{Funcs: map[string]*FuncContract{}, Monitors: map[string]*Monitor{}, Fields: map[string]*FieldMode{}, FieldModes: map[string][]*FieldMode{}, FunTypes: map[string]string{}}
 }
 
 var tagRe = regexp.MustCompile(`^\[([^\]]*)\]`)
@@ -391,7 +392,11 @@ func (cs *Contracts) ParseFile(path string) error {
 			if len(fs) < 2 {
 				return fail(fmt.Errorf("field needs a name and a mode"))
 			}
-			cs.Fields[fs[0]] = &FieldMode{Field: fs[0], Mode: fs[1], Args: fs[2:], File: path, Line: ln}
+			fm := &FieldMode{Field: fs[0], Mode: fs[1], Args: fs[2:], File: path, Line: ln}
+			if _, ok := cs.Fields[fs[0]]; !ok || fs[1] == "closeonly" {
+				cs.Fields[fs[0]] = fm
+			}
+			cs.FieldModes[fs[0]] = append(cs.FieldModes[fs[0]], fm)
 		case "funtype":
 			fs := strings.Fields(rest)
 			if len(fs) != 3 || fs[1] != "pure" {
